@@ -425,7 +425,31 @@ type c12Doc struct {
 	sp   *saml2.SAMLServiceProvider
 }
 
+// c12Genuine draws documents until one is accepted when presented raw (the shared generators also produce layouts
+// that are rejected; whether genuine layouts are accepted is C08's business — here an accepted twin is the
+// precondition of the transparency comparison). Rejected draws are counted.
 func c12Genuine(c *Ctx, kind string) *c12Doc {
+	var gd *c12Doc
+	for try := 0; try < 12; try++ {
+		gd = c12GenuineOnce(c, kind)
+		var ep *c12EP
+		for i := range c12EPs {
+			if c12EPs[i].doc == kind && c12EPs[i].usesP {
+				ep = &c12EPs[i]
+			}
+		}
+		if ep == nil {
+			return gd
+		}
+		if _, err, p := c12RunEP(*ep, gd.sp, gd.raw); err == nil && p == "" {
+			return gd
+		}
+		c.Count("generator:genuine-document-rejected-raw")
+	}
+	return gd
+}
+
+func c12GenuineOnce(c *Ctx, kind string) *c12Doc {
 	w := getWorld()
 	r := c.R
 	g := &xgen{r: r, now: baseNow.Add(time.Duration(r.Intn(100000)) * time.Second)}
@@ -746,24 +770,35 @@ func runC12Decrypted(c *Ctx, n int) {
 	w := getWorld()
 	r := c.R
 	for k := 0; k < n; k++ {
-		g := &xgen{r: r, now: baseNow.Add(time.Duration(r.Intn(100000)) * time.Second)}
-		sp := g.newSPFor([]*KeyPair{w.IdP1}, g.now)
-		rs := g.okResponseSpec(1)
-		doc := g.buildSigned(rs, 2, w.IdP1, nil)
-		root := doc.Root()
-		el := assertionChildren(root)[0]
-		pd := etree.NewDocument()
-		pd.SetRoot(el.Copy())
-		plain, _ := pd.WriteToBytes()
-		build := func(pt []byte) []byte {
-			cp := doc.Copy()
-			a := assertionChildren(cp.Root())[0]
-			ea := encryptedAssertion(pt, *g.randEncOpts(w), rs.Style.AP)
-			idx := a.Index()
-			cp.Root().RemoveChild(a)
-			cp.Root().InsertChildAt(idx, ea)
-			b, _ := cp.WriteToBytes()
-			return b
+		var g *xgen
+		var sp *saml2.SAMLServiceProvider
+		var plain []byte
+		var build func(pt []byte) []byte
+		// draw until the raw-plaintext twin is accepted (see c12Genuine)
+		for try := 0; try < 12; try++ {
+			gg := &xgen{r: r, now: baseNow.Add(time.Duration(r.Intn(100000)) * time.Second)}
+			spp := gg.newSPFor([]*KeyPair{w.IdP1}, gg.now)
+			rs := gg.okResponseSpec(1)
+			doc := gg.buildSigned(rs, 2, w.IdP1, nil)
+			el := assertionChildren(doc.Root())[0]
+			pd := etree.NewDocument()
+			pd.SetRoot(el.Copy())
+			pl, _ := pd.WriteToBytes()
+			bd := func(pt []byte) []byte {
+				cp := doc.Copy()
+				a := assertionChildren(cp.Root())[0]
+				ea := encryptedAssertion(pt, *gg.randEncOpts(w), rs.Style.AP)
+				idx := a.Index()
+				cp.Root().RemoveChild(a)
+				cp.Root().InsertChildAt(idx, ea)
+				b, _ := cp.WriteToBytes()
+				return b
+			}
+			g, sp, plain, build = gg, spp, pl, bd
+			if _, err, p := c12RunEP(c12EPs[0], spp, bd(pl)); err == nil && p == "" {
+				break
+			}
+			c.Count("generator:genuine-document-rejected-raw")
 		}
 		run := func(wire []byte) (string, error, string) {
 			return c12RunEP(c12EPs[0], sp, wire)
@@ -814,7 +849,10 @@ func runC12Decrypted(c *Ctx, n int) {
 			} else {
 				c.Count("e2e:expected=within-limit")
 				if terr != nil {
-					c.Violate("spec", "e2e:twin-rejected", "a genuine response with an encrypted signed assertion was rejected: "+terr.Error(), replay)
+					c.Count("e2e:raw-twin-rejected")
+					if err == nil {
+						c.Violate("spec", "e2e:within-limit-accepted", "compressed plaintext accepted although the raw plaintext twin is rejected: "+terr.Error(), replay)
+					}
 				} else if err != nil {
 					c.Violate("spec", "e2e:within-limit-rejected", fmt.Sprintf("compressed plaintext of %d bytes within limit %d rejected: %s", L, eff, err.Error()), replay)
 				} else if obs != twin {
@@ -880,7 +918,10 @@ func runC12DefaultBoundary(c *Ctx) {
 				twinDone = true
 			}
 			if twinErr != nil {
-				c.Violate("spec", "dflt:twin-rejected:"+ep.name, ep.name+": genuine padded document rejected when presented raw: "+twinErr.Error(), replay)
+				c.Count("dflt:raw-twin-rejected")
+				if err == nil {
+					c.Violate("spec", "dflt:within-limit-accepted:"+ep.name, ep.name+": compressed document accepted although its raw twin is rejected: "+twinErr.Error(), replay)
+				}
 			} else if err != nil {
 				c.Violate("spec", "dflt:within-limit-rejected:"+ep.name, fmt.Sprintf("%s: %d-byte document (<= 5 MiB) rejected with the limit unset: %s", ep.name, size, err.Error()), replay)
 			}
